@@ -28,6 +28,8 @@ CONFIGS = {
     'pfs': lambda: S.base_confs(a_entry={'dh': ['19']}, b_entry={'dh': ['19']}),
     # (iv) IKE over IPv6 protecting IPv4 networks in tunnel mode: address family of the SA differs from its selectors
     'v6-outer': lambda: _v6_outer_confs(),
+    # (v) an ESP entry and an AH entry in the same connection: one IKE_SA holds CHILD_SAs of both protocols
+    'esp+ah': lambda: _esp_ah_confs(),
 }
 ADDRS = {'v6-outer': {'A': ['2001:db8::1'], 'B': ['2001:db8::2']}}
 
@@ -42,6 +44,13 @@ def _refuse_confs():
                                                 mode='tunnel', integ=['sha512']))
     c['A']['conn_ab']['protect'].append(S.entry(7, my_subnet='10.3.0.0/24', peer_subnet='10.4.0.0/24',
                                                 mode='tunnel', integ=['sha1']))
+    return c
+
+
+def _esp_ah_confs():
+    c = S.base_confs()
+    c['A']['conn_ab']['protect'].append(S.entry(11, ipsec_proto='ah', my_subnet='10.1.0.0/24', peer_subnet='10.2.0.0/24', mode='tunnel'))
+    c['B']['conn_ba']['protect'].append(S.entry(12, ipsec_proto='ah', my_subnet='10.2.0.0/24', peer_subnet='10.1.0.0/24', mode='tunnel'))
     return c
 
 
